@@ -487,6 +487,11 @@ func runPVPath(c *core.Ctx) {
 			count[base]++
 			key := fmt.Sprintf("%s#%d", base, count[base])
 			ok, why := pc.component(p, s.call, 0)
+			tags := []string{"path"}
+			if usesDigest(p) {
+				tags = append(tags, "digest")
+			}
+			c.SetTags(tags...)
 			if ok {
 				c.Pass(key, s.call.Pos(), "composed of allowed components only")
 			} else {
@@ -496,6 +501,7 @@ func runPVPath(c *core.Ctx) {
 	}
 	// PV-SESSION: session id parameters are map keys only — they never reach a path component (any
 	// failure above names its source; here the positive statement per BlobSession implementation)
+	c.SetTags("session")
 	for _, fam := range r.Families {
 		fn := getLock(c).MethodOf(fam.Repo, "BlobSession")
 		if fn == nil || len(fn.Params) < 2 {
@@ -518,4 +524,41 @@ func runPVPath(c *core.Ctx) {
 		}
 		c.Check(onlyKey, "session-id:"+kn(c.P.FuncName(fn)), fn.Pos(), "the session id is used as a cache key only: %v", onlyKey)
 	}
+}
+
+// usesDigest: a component of the path derives from a digest value (its type is Digest / Algorithm, or a
+// conversion of one).
+func usesDigest(v ssa.Value) bool {
+	found := false
+	seen := map[ssa.Value]bool{}
+	var walk func(v ssa.Value, d int)
+	walk = func(v ssa.Value, d int) {
+		if v == nil || seen[v] || d > 12 || found {
+			return
+		}
+		seen[v] = true
+		if isNamed(v.Type(), digestPkg, "Digest") || isNamed(v.Type(), digestPkg, "Algorithm") {
+			found = true
+			return
+		}
+		if sl, ok := v.(*ssa.Slice); ok {
+			if elems, ok := variadicElems(sl); ok {
+				for _, e := range elems {
+					walk(e, d+1)
+				}
+			}
+		}
+		if in, ok := v.(ssa.Instruction); ok {
+			if _, isPhi := v.(*ssa.Phi); isPhi && d > 6 {
+				return
+			}
+			for _, op := range in.Operands(nil) {
+				if *op != nil {
+					walk(*op, d+1)
+				}
+			}
+		}
+	}
+	walk(v, 0)
+	return found
 }
